@@ -54,3 +54,19 @@ Proof. exact example_two_ranges. Qed.
 Example C03_example_two_ranges_exported :
   model_feasible ex_dev [1;1;2;2] /\ ~ model_feasible ex_dev [0;0;2;2].
 Proof. exact example_two_ranges_model. Qed.
+
+(* ---- the two instances agree on the exported constraint lists (Proofs/HomCons.v): same number and types, and every constraint
+   function / Jacobian evaluated on exact rationals (what ./check C03 and C06 compare with the implementation) maps through Q2R to the
+   real one the theorems above speak about. Every atomic kind, every length. ---- *)
+From Coq Require Import QArith Qreals.
+From DK Require Import NumQ.
+From DK.Proofs Require Import Hom HomLeaf HomCons.
+Theorem C03_instances_agree_on_the_exported_constraints : forall (L : leafdev Q),
+  List.Forall2 (fun (cq : con Q) (cr : con R) =>
+      c_eq cq = c_eq cr /\ (forall x, Q2R (c_fun cq x) = c_fun cr (List.map Q2R x)) /\
+      match c_jac cq, c_jac cr with
+      | Some jq, Some jr => forall x, List.map Q2R (jq x) = jr (List.map Q2R x)
+      | None, None => True
+      | _, _ => False
+      end) (leaf_cons L) (leaf_cons (mleaf L)).
+Proof. exact instances_agree_leaf_cons. Qed.
